@@ -164,23 +164,19 @@ Crossbeam<'a, ItemType, BUFFER_SIZE, MAX_STREAMS> {
                 break
             }
             let sender = unsafe { self.senders.get_unchecked(*stream_id as usize) };
-            #[cfg(feature = "verif")] crate::verif::yield_point("multi.xb.send.before_len");
-            match sender.len() {
-                len_before if len_before <= 2 => {
-                    #[cfg(feature = "verif")] crate::verif::yield_point("multi.xb.send.before_try_send");
-                    let _ = sender.try_send(arc_item.clone());
-                    #[cfg(feature = "verif")] crate::verif::yield_point("multi.xb.send.after_try_send");
-                },
-                _ => while sender.try_send(arc_item.clone()).is_err() {
-                    self.streams_manager.wake_stream(*stream_id);
+            #[cfg(feature = "verif")] crate::verif::yield_point("multi.xb.send.before_try_send");
+            // a full listener queue makes the sender wait for room (whatever the queue length was a moment ago: with `BUFFER_SIZE <= 2`
+            // a failed `try_send()` used to be ignored, silently dropping the event for that listener)
+            while sender.try_send(arc_item.clone()).is_err() {
+                self.streams_manager.wake_stream(*stream_id);
 // TODO 2023-08-02: the possibility of this code indicates all our arc based channels is not a good fit for our retrying semantics. A possible correction would be to use a lock + count all listener's free slots... but OgreArc based ones seem to be a better design
 warn!("Multi Channel's Arc Crossbeam (named '{channel_name}', {used_streams_count} streams): One of the streams (#{stream_id}) is full of elements. Multi producing performance has been degraded. Increase the Multi buffer size (currently {BUFFER_SIZE}) to overcome that.",
       channel_name = self.streams_manager.name(), used_streams_count = self.streams_manager.running_streams_count());
 std::thread::sleep(Duration::from_millis(500));
-                },
             }
-            // always wake after publishing: `len_before` was sampled before `try_send()` and the listener may have
-            // drained its queue (and gone to sleep) in between -- the event would sit there until another send
+            #[cfg(feature = "verif")] crate::verif::yield_point("multi.xb.send.after_try_send");
+            // always wake after publishing: the listener may have drained its queue (and gone to sleep) right before
+            // -- the event would sit there until another send
             self.streams_manager.wake_stream(*stream_id);
         }
         true
